@@ -32,6 +32,8 @@ def _seed_world():
     w.do((1, 2), W.p_register(W.pie_private(), [W.attr(W.AT.CRYPTOGRAPHIC_USAGE_MASK, [CUM.SIGN])]))
     w.do((1, 2), W.p_activate('3'))
     w.do((1, 2), W.p_activate('4'))
+    # 5: alice's pre-active key (can be modified and destroyed)
+    w.do((1, 2), W.p_create(W.sym_attrs(masks=[CUM.ENCRYPT], names=['k5', 'k5b'])))
     return w
 
 
@@ -80,6 +82,18 @@ PREFIX.update({
     'a12.credentials': ('alice', (1, 2), lambda: [W.p_locate()], {'credentials': [_CRED]}),
     'a12.ids_all': ('alice', (1, 2), lambda: [W.p_locate()], {'batch_ids': 'all'}),
 })
+# the identifier family: the same object read, changed and destroyed under its canonical identifier and
+# under other spellings the server accepts for it ('05', ' 5'); whatever an engine remembers about an
+# object may not outlive what later requests do to it
+for _sp, _lbl in (('5', '5'), ('05', '05'), (' 5', 'sp5')):
+    PREFIX['a12.get_%s' % _lbl] = ('alice', (1, 2), (lambda _sp=_sp: [W.p_get(_sp)]), {})
+    PREFIX['a12.attr_list_%s' % _lbl] = ('alice', (1, 2), (lambda _sp=_sp: [W.p_get_attribute_list(_sp)]), {})
+    PREFIX['a14.rename_%s' % _lbl] = ('alice', (1, 4), (lambda _sp=_sp: [
+        W.p_modify_attribute_1x(_sp, W.AT.NAME, 'renamed', 0)]), {})
+    PREFIX['a12.destroy_%s' % _lbl] = ('alice', (1, 2), (lambda _sp=_sp: [W.p_destroy(_sp)]), {})
+ID_FAMILY = [k for k in PREFIX if k.split('.')[1].split('_')[0] in ('get', 'attr', 'rename', 'destroy')
+             and k.endswith(('_5', '_05', '_sp5'))]
+
 # engine seam (no codec on the way in): header handling for versions the decoder never lets through
 PREFIX['e.a15.query'] = ('alice', (1, 5), lambda: [W.p_query()], {'_seam': 'engine'})
 PREFIX['e.b30.create'] = ('bob', (3, 0), lambda: [W.p_create()], {'_seam': 'engine'})
@@ -139,6 +153,13 @@ _add('g12.locate', 'carol', (1, 2), lambda: [W.p_locate()], _groups=['g1'])
 _add('a12.batch_get_first', 'alice', (1, 2), lambda: [W.p_get(), W.p_create()],
      error_option=E.BatchErrorContinuationOption.CONTINUE)
 
+# identifier-family probes
+for _sp, _lbl in (('5', '5'), ('05', '05')):
+    _add('a12.get_%s' % _lbl, 'alice', (1, 2), (lambda _sp=_sp: [W.p_get(_sp)]))
+    _add('a14.get_attributes_%s' % _lbl, 'alice', (1, 4), (lambda _sp=_sp: [W.p_get_attributes(_sp)]))
+    _add('a12.destroy_%s' % _lbl, 'alice', (1, 2), (lambda _sp=_sp: [W.p_destroy(_sp)]))
+    _add('a12.activate_%s' % _lbl, 'alice', (1, 2), (lambda _sp=_sp: [W.p_activate(_sp)]))
+_add('a12.locate_k5', 'alice', (1, 2), lambda: [W.p_locate([W.attr(W.AT.NAME, 'k5')])])
 # header-sensitive probes
 _add('a12.batch_fail_first', 'alice', (1, 2), lambda: [W.p_get('999'), W.p_create()])
 _add('b20.batch_fail_first', 'bob', (2, 0), lambda: [W.p_get('999'), W.p_create()])
@@ -233,8 +254,12 @@ CORE = ['a12.create', 'b20.create', 'a12.batch_create_get', 'a10.get_missing', '
 def histories(tier):
     """Quick: every prefix of length 0..1, and length 2 with the first letter from CORE.
     Thorough: every prefix of length 0..2, and length 3 with the first two letters from CORE."""
-    full = list(PREFIX)
-    out = [()] + [(a,) for a in full]
+    full = [k for k in PREFIX if k not in ID_FAMILY]
+    out = [()] + [(a,) for a in PREFIX]
+    # the identifier family: all histories of length 2 (and 3 in the thorough tier) among its letters
+    out += [(a, b) for a in ID_FAMILY for b in ID_FAMILY]
+    if tier != 'quick':
+        out += [(a, b, c) for a in ID_FAMILY for b in ID_FAMILY for c in ID_FAMILY if len({a, b, c}) == 3]
     if tier == 'quick':
         out += [(a, b) for a in CORE for b in full]
     else:
@@ -265,7 +290,12 @@ def run(tier, seed):
     probes = list(PROBE)
     hs = histories(tier)
     n = 64
-    tasks = [(hs[i::n], probes) for i in range(n) if hs[i::n]]
+    id_probes = [p_ for p_ in probes if p_.endswith(('_5', '_05', 'locate_k5'))] + [
+        'a12.locate', 'a12.get', 'a12.create', 'a20.get_attribute_list']
+    idh = [h for h in hs if len(h) >= 2 and all(x in ID_FAMILY for x in h)]
+    rest = [h for h in hs if h not in set(idh)]
+    tasks = [(rest[i::n], probes) for i in range(n) if rest[i::n]]
+    tasks += [(idh[i::16], id_probes) for i in range(16) if idh[i::16]]
     outcomes = set()
     for part in pmap(_worker, tasks):
         outcomes.update(tuple(o)
